@@ -89,6 +89,13 @@ func c11Groups() []c11Group {
 			GitKVs: []c11KV{{"lfs", noSub, "url", phGood + "/o.git/info/lfs"}, {"lfs", noSub, "pushurl", phGood + "/o.git/info/lfs"}}},
 		{Name: "precedence-remote-lfsurl", KVs: []c11KV{{"remote", "origin", "lfsurl", phEvil + "/y"}, {"remote", "my.fork", "lfsurl", phEvil + "/z"}},
 			GitKVs: []c11KV{{"remote", "origin", "lfsurl", phGood + "/o.git/info/lfs"}, {"remote", "my.fork", "lfsurl", phGood + "/f.git/info/lfs"}}},
+		// the same with the key listed more than once in .lfsconfig, one copy repeating Git's own value
+		{Name: "precedence-dup-lfs-url", KVs: []c11KV{{"lfs", noSub, "url", phGood + "/o.git/info/lfs"}, {"lfs", noSub, "url", phEvil + "/x"},
+			{"lfs", noSub, "pushurl", phGood + "/o.git/info/lfs"}, {"lfs", noSub, "pushurl", phEvil + "/xp"}},
+			GitKVs: []c11KV{{"lfs", noSub, "url", phGood + "/o.git/info/lfs"}, {"lfs", noSub, "pushurl", phGood + "/o.git/info/lfs"}}},
+		{Name: "precedence-dup3-remote-lfsurl", KVs: []c11KV{{"remote", "origin", "lfsurl", phGood + "/o.git/info/lfs"}, {"remote", "origin", "lfsurl", phGood + "/o.git/info/lfs"}, {"remote", "origin", "lfsurl", phEvil + "/y"},
+			{"remote", "my.fork", "lfsurl", phEvil + "/z"}, {"remote", "my.fork", "lfsurl", phGood + "/f.git/info/lfs"}, {"remote", "my.fork", "lfsurl", phEvil + "/z"}},
+			GitKVs: []c11KV{{"remote", "origin", "lfsurl", phGood + "/o.git/info/lfs"}, {"remote", "my.fork", "lfsurl", phGood + "/f.git/info/lfs"}}},
 	}
 	var all c11Group
 	all.Name = "all-hostile-together"
@@ -119,7 +126,7 @@ func c11RenderKVs(kvs []c11KV, upper bool, repl *strings.Replacer) string {
 }
 
 // groups that the quick tier runs at every location (the location dimension is otherwise covered by part inproc)
-var c11QuickAllLocs = map[string]bool{"all-hostile-together": true, "allowed-lfs-url": true, "precedence-lfs-url": true, "remote-dotted-pushurl": true, "extension-priority-only": true}
+var c11QuickAllLocs = map[string]bool{"all-hostile-together": true, "allowed-lfs-url": true, "precedence-lfs-url": true, "precedence-dup-lfs-url": true, "remote-dotted-pushurl": true, "extension-priority-only": true}
 
 var c11E2ELocs = []string{"worktree", "index-only", "HEAD-only", "bare-HEAD"}
 var c11Placements = []string{"lfsconfig", "gitconfig-control"}
